@@ -13,6 +13,9 @@ Definition chk_q (a b : Q) : bool := close a b.
 Definition chk_z (a b : Z) : bool := Z.eqb a b.
 Definition chk_b (a b : bool) : bool := Bool.eqb a b.
 Definition chk_unit (a b : unit) : bool := true.
+Definition chk_hdr (a b : header) : bool :=
+  chk_q (fst (h_spacing a)) (fst (h_spacing b)) && chk_q (snd (h_spacing a)) (snd (h_spacing b)) &&
+  chk_q (h_slope a) (h_slope b) && chk_q (h_intercept a) (h_intercept b) && Z.eqb (h_rest a) (h_rest b).
 Definition chk_pair {A B} (f : A -> A -> bool) (g : B -> B -> bool) (a b : A * B) : bool :=
   f (fst a) (fst b) && g (snd a) (snd b).
 Fixpoint chk_list {A} (f : A -> A -> bool) (a b : list A) : bool :=
